@@ -30,22 +30,24 @@ Theorem C17_scopes_nest : forall c n, ctx_in (ctx_push c) n = ctx_in c n /\ ctx_
 Proof. intros. split; reflexivity. Qed.
 Print Assumptions C17_registering_never_hides.
 
-(* Full statement (no spurious warning on any body) is refuted by four finding classes *)
+(* Full statement (no spurious warning on any body) is refuted by the match captures (three more classes were repaired) *)
 Definition C17_no_spurious_full : Prop :=
   forall body w, In w (warns body) -> unbound_site body w = true.
 Theorem C17_refuted : ~ C17_no_spurious_full.
 Proof.
-  intros H. destruct k1_read_is_bound as (Hb & Hin).
-  exact (Bool.eq_true_false_abs _ (H k1 _ Hin) Hb).
+  intros H. destruct k2_read_is_bound as (Hb & Hin).
+  exact (Bool.eq_true_false_abs _ (H k2 _ Hin) Hb).
 Qed.
 Print Assumptions C17_refuted.
 
 Example C17_finding_classes :
-  warns k1 = [("exc", P0)] /\ warns k2 = [("m1", P0)] /\ warns k3 = [("p", P0); ("p", P0)] /\ warns k4 = [("t", (2, 4))].
+  warns k2 = [("m1", P0)] /\ warns k1 = [] /\ warns k3 = [] /\ warns k4 = [].
 Proof. exact spurious_classes. Qed.
+Example C17_handler_name_is_scoped_to_the_handler : warns k5 = [("exc", (9, 0))].
+Proof. exact handler_name_is_scoped_to_the_handler. Qed.
 Example C17_registered_binders : warns b_ok = [("int0", P0)].
 Proof. exact registered_binders_no_warning. Qed.
-Example C17_unbound_reads : warns b_warn = [("x", (1, 4)); ("x", (2, 0)); ("nowhere", (3, 0)); ("u", (5, 0))].
+Example C17_unbound_reads : warns b_warn = [("x", (2, 0)); ("nowhere", (3, 0)); ("u", (5, 0))].
 Proof. exact unbound_reads_warned. Qed.
 
 (* ---------- whole expressions (proofs/C17Quiet.v) ---------- *)
